@@ -401,7 +401,7 @@ impl Kit {
 		// inputs in features-and-commit form: what each input CLAIMS about the output it spends
 		let inf = self.claims_desc(&b.body.inputs);
 		format!(
-			"chain blk b{} parent={} h={} work={} ver={} ts={} ins=[{}] outs=[{}] kers=[{}]{} tags=[{}]",
+			"chain blk b{} parent={} h={} work={} ver={} ts={} ins=[{}] outs=[{}] kers=[{}]{} osz={} ksz={} tags=[{}]",
 			id,
 			r.parent.map(|p| format!("b{}", p)).unwrap_or("-".to_string()),
 			b.header.height,
@@ -412,8 +412,45 @@ impl Kit {
 			outs.join(","),
 			kers.join(","),
 			inf,
+			// what the header CLAIMS as leaf counts of the output / kernel MMR after the block
+			grin_core::core::pmmr::n_leaves(b.header.output_mmr_size),
+			grin_core::core::pmmr::n_leaves(b.header.kernel_mmr_size),
 			r.tags.join(",")
 		)
+	}
+
+	/// (output PMMR root, bitmap root) of the state after `b` on its own parent, as the building
+	/// node computes them (`Chain::set_txhashset_roots` stops at the merged root)
+	pub fn output_roots_after(&self, b: &Block) -> Option<(Hash, Hash)> {
+		use grin_chain::{pipe, txhashset};
+		let chain = self.builder();
+		let hp = chain.header_pmmr();
+		let ts = chain.txhashset();
+		let mut header_pmmr = hp.write();
+		let mut txhashset = ts.write();
+		txhashset::extending_readonly(&mut header_pmmr, &mut txhashset, |ext, batch| {
+			let prev = batch.get_previous_header(&b.header)?;
+			pipe::rewind_and_apply_fork(&prev, ext, batch, &|_| Ok(()))?;
+			let extension = &mut ext.extension;
+			let header_extension = &mut ext.header_extension;
+			extension.apply_block(b, header_extension, batch)?;
+			let r = extension.roots()?;
+			Ok((r.output_roots.pmmr_root, r.output_roots.bitmap_root))
+		})
+		.ok()
+	}
+
+	/// the header's output root as a block producer writes it for the output MMR size the header
+	/// CLAIMS: from version 3 on `H(size | pmmr_root | bitmap_root)`, before that the PMMR root
+	pub fn set_output_root_for_claimed_size(&self, b: &mut Block) -> bool {
+		use grin_core::ser::PMMRIndexHashable;
+		match self.output_roots_after(b) {
+			Some((p, bm)) => {
+				b.header.output_root = if b.header.version < grin_core::core::HeaderVersion(3) { p } else { (p, bm).hash_with_index(b.header.output_mmr_size) };
+				true
+			}
+			None => false,
+		}
 	}
 
 	pub fn bid(&self, h: &Hash) -> String {
